@@ -70,7 +70,12 @@ type kcfg struct {
 	ws    bool
 	steps []kstep
 	work  int // virtual seconds the HTTP handler / WebSocket message or control-frame handler takes (0: none)
-	p, d  int
+	// calm: virtual timers fire only when every thread is blocked (the main thread is the clock)
+	// instead of wherever the scheduler can place the clock thread. Far fewer executions per
+	// exchange, which pays for longer unit sequences; the placement of a firing relative to the
+	// server's threads is what the other scenarios explore.
+	calm bool
+	p, d int
 }
 
 func (c kcfg) name() string {
@@ -91,6 +96,9 @@ func (c kcfg) name() string {
 	what := fmt.Sprintf("gaps=%v", gaps)
 	if !plain {
 		what = "steps=[" + strings.Join(st, " ") + "]"
+	}
+	if c.calm {
+		what = "calm " + what
 	}
 	if c.work > 0 {
 		return fmt.Sprintf("keepalive %s %s exec=%s %s work=%ds", kind, c.mode, c.exec, what, c.work)
@@ -497,8 +505,19 @@ func kbody(c kcfg) func() {
 			w.tick()
 			w.clientEnd = true
 		})
-		vsched.GoNamed("clock", w.clock)
-		vsched.WaitIdle()
+		if c.calm {
+			for {
+				vsched.WaitIdle()
+				if vtime.Armed() == 0 {
+					break
+				}
+				w.tick()
+				w.fireOne()
+			}
+		} else {
+			vsched.GoNamed("clock", w.clock)
+			vsched.WaitIdle()
+		}
 		// ---- final oracle
 		w.tick()
 		if !w.clientEnd {
@@ -672,12 +691,20 @@ func keepaliveScenarios(tier string) []weighted {
 		steps string // "gap:kind gap:kind ..."
 		quick bool
 		work  int
+		calm  bool
 	}
-	klists := []kl{
+	type kl4 struct {
+		ws    bool
+		steps string
+		quick bool
+		work  int
+	}
+	var klists []kl
+	for _, x := range []kl4{
 		// every kind on its own, 2 s after the upgrade: the close moves from +4s to +6s
 		{true, "2:B", true, 0}, {true, "2:I", true, 0}, {true, "2:O", true, 0},
 		// a control frame after a data message, two control frames: only the last unit counts
-		{true, "2:T 3:I", true, 0}, {true, "2:I 3:O", true, 0}, {true, "3:O 3:T", false, 0}, {true, "2:I 3:I", false, 0}, {true, "2:B 2:B", false, 0},
+		{true, "2:T 3:I", false, 0}, {true, "2:I 3:O", false, 0}, {true, "3:O 3:T", false, 0}, {true, "2:I 3:I", false, 0}, {true, "2:B 2:B", false, 0},
 		// control frames arriving exactly at / after the deadline
 		{true, "4:I", true, 0}, {true, "5:I", false, 0}, {true, "4:O", false, 0}, {true, "5:O", false, 0}, {true, "4:B", false, 0}, {true, "0:I", false, 0}, {true, "0:O", false, 0},
 		// a control-frame handler that takes virtual time: the keep-alive time counts from its end
@@ -685,11 +712,32 @@ func keepaliveScenarios(tier string) []weighted {
 		// fragmented message: first fragment at +2s (completes nothing), last fragment 1 s later
 		// (message handled at +3s: close at +7s); first fragment alone; last fragment too late
 		{true, "2:F 1:C", true, 0}, {true, "2:F", true, 0}, {true, "2:F 3:C", false, 0}, {true, "2:F 2:C", false, 0},
-		{true, "2:F 1:M 1:C", false, 0}, {true, "1:F 2:I 2:C", true, 0}, {true, "2:T 1:F 2:C", false, 0}, {true, "2:F 1:C", false, 2},
+		{true, "2:F 1:M 1:C", false, 0}, {true, "1:F 2:I 2:C", false, 0}, {true, "2:T 1:F 2:C", false, 0}, {true, "2:F 1:C", false, 2},
 		// HTTP: a POST whose head arrives at +3s and whose body arrives 2 s later (response at +5s:
 		// close at +12s), 5 s later (after the keep-alive time counted from the accept), or never
 		{false, "3:H 2:Y", true, 0}, {false, "3:H", true, 0}, {false, "3:H 5:Y", true, 0}, {false, "3:H 4:Y", false, 0}, {false, "0:H 3:Y", false, 0},
 		{false, "3:Q 3:H 2:Y", false, 0}, {false, "3:H 2:Y 3:Q", false, 0}, {false, "3:H 2:Y", false, 3},
+	} {
+		klists = append(klists, kl{x.ws, x.steps, x.quick, x.work, false})
+	}
+	// longer sequences, timers fired at quiescence only ("calm"): every ordered pair (quick) and
+	// triple (thorough) of WebSocket unit kinds, 2 s after the upgrade and then 3 s apart - each unit
+	// arrives later than the previous deadline would have allowed, so it is only handled if its
+	// predecessor renewed -, fragmented messages with control frames in between, HTTP sequences
+	wsKinds := []string{"T", "B", "I", "O"}
+	for _, a := range wsKinds {
+		for _, b := range wsKinds {
+			klists = append(klists, kl{true, "2:" + a + " 3:" + b, true, 0, true})
+			for _, c := range wsKinds {
+				klists = append(klists, kl{true, "2:" + a + " 3:" + b + " 3:" + c, a != "B" && b != "B" && c != "B" && (a != b || b != c), 0, true})
+			}
+		}
+	}
+	for _, x := range []string{"2:F 1:C 3:I", "1:F 2:I 2:C", "1:F 2:O 2:C 3:T", "2:F 1:M 1:C", "2:I 3:F 1:C", "2:F 1:M", "2:T 3:F", "2:I 3:I 3:I 3:I"} {
+		klists = append(klists, kl{true, x, true, 0, true})
+	}
+	for _, x := range []string{"3:Q 5:H 1:Y 6:Q", "3:H 2:Y 6:H 1:Y", "3:Q 5:H", "3:H 2:Y 6:Q 8:Q"} {
+		klists = append(klists, kl{false, x, true, 0, true})
 	}
 	for _, x := range klists {
 		if !x.quick && !thorough {
@@ -713,7 +761,16 @@ func keepaliveScenarios(tier string) []weighted {
 			if thorough && len(steps) == 1 && x.work == 0 {
 				p = 1
 			}
-			add(kcfg{mode: m, exec: "go", ws: x.ws, steps: steps, work: x.work, p: p, d: d})
+			complete := 0
+			for _, st := range steps {
+				if !st.partial() {
+					complete++
+				}
+			}
+			if x.calm {
+				p, d = 1, 1
+			}
+			add(kcfg{mode: m, exec: "go", ws: x.ws, steps: steps, work: x.work, calm: x.calm, p: p, d: d})
 		}
 	}
 	return out
